@@ -36,6 +36,7 @@ from typing import (
     NamedTuple,
     Optional,
     Sequence,
+    Set,
     Tuple,
     Union,
     overload,
@@ -203,6 +204,7 @@ class _CFIProcedureTracker:
         self, module: gtirb.Module, sorted_blocks: List[gtirb.ByteBlock]
     ):
         self._tree = IntervalTree()
+        self._procedure_ends: Set[Tuple[int, int]] = set()
 
         table = _auxdata_offsetmap.cfi_directives.get(module)
         if not table:
@@ -227,9 +229,14 @@ class _CFIProcedureTracker:
                     ):
                         procedure_end = (idx, offset)
                         self._tree.addi(procedure_start, procedure_end)
+                        self._procedure_ends.add(procedure_end)
 
     def in_procedure(self, block_idx: int, offset: int) -> bool:
-        return bool(self._tree.at((block_idx, offset)))
+        # Code inserted at the position of a .cfi_endproc is placed before the
+        # directive (see split_block), so that position is still inside the
+        # procedure.
+        point = (block_idx, offset)
+        return bool(self._tree.at(point)) or point in self._procedure_ends
 
 
 class RewritingContext:
